@@ -428,6 +428,9 @@ func generate(rng *rand.Rand, family string, nsteps int) scriptT {
 	case "names":
 		genNames(w, &sc, nsteps)
 		return sc
+	case "scen":
+		genScen(w, &sc, nsteps)
+		return sc
 	}
 	// mix / fault: a seed tree, then a weighted stream
 	for i := 0; i < 3; i++ {
@@ -781,3 +784,246 @@ func genRecurse(w *world, sc *scriptT, nsteps int) {
 		}
 	}
 }
+
+// ------------------------------------------------------------------ targeted scenarios
+// Each scenario works in its own sub-directory so that several can be composed in one history; every scenario has
+// randomised details (which variant, when handling happens, spellings).
+
+func (w *world) maybeProc(sc *scriptT) {
+	if w.rng.Intn(2) == 0 {
+		sc.steps = append(sc.steps, step{w.procStep()})
+	}
+}
+
+func (w *world) spell2(p string) string {
+	if w.rng.Intn(7) == 0 {
+		return "./" + p + "/"
+	}
+	pre := []string{"$R/", "", "./", "$R/./", "$R//", "./././"}[w.rng.Intn(6)]
+	suf := []string{"", "", "/", "/.", "//", "/./"}[w.rng.Intn(6)]
+	body := p
+	switch w.rng.Intn(5) {
+	case 0:
+		body = strings.ReplaceAll(p, "/", "//")
+	case 1:
+		if i := strings.Index(p, "/"); i > 0 {
+			body = p[:i] + "/../" + p
+		}
+	case 2:
+		body = strings.ReplaceAll(p, "/", "/./")
+	}
+	return pre + body + suf
+}
+
+func genScen(w *world, sc *scriptT, nsteps int) {
+	add := func(f ...string) { sc.steps = append(sc.steps, step{f}) }
+	k := 0
+	for len(sc.steps) < nsteps {
+		k++
+		d := fmt.Sprintf("s%d", k)
+		add("fs", "mkdir", d)
+		switch w.rng.Intn(12) {
+		case 0: // a listed path comes to name a file that is already watched under another name (old inode kept alive or not)
+			x, y := d+"/x", d+"/y"
+			add("fs", "create", x)
+			add("fs", "create", y)
+			if w.rng.Intn(2) == 0 {
+				add("fs", "link", x, d+"/keep")
+			}
+			sx := w.spell2(x)
+			add("add", hx(sx), "31", "0")
+			add("add", hx(w.spell2(y)), "31", "0")
+			w.maybeProc(sc)
+			add("fs", "unlink", x)
+			if w.rng.Intn(2) == 0 {
+				add("fs", "link", y, x)
+			} else {
+				add("fs", "symlink", "$R/"+y, x)
+			}
+			w.maybeProc(sc)
+			add("add", hx(sx), "31", "0")
+			add("proc", "A")
+			add("fs", "write", y)
+			add("proc", "A")
+			add("list")
+			add("remove", hx(sx))
+			add("proc", "A")
+		case 1: // a symlink is retargeted to a directory that was added first under its own name
+			add("fs", "mkdir", d+"/first")
+			add("fs", "mkdir", d+"/other")
+			add("fs", "symlink", "$R/"+d+"/other", d+"/link")
+			add("add", hx(w.spell2(d+"/first")), "31", "0")
+			add("add", hx("$R/"+d+"/link"), "31", "0")
+			w.maybeProc(sc)
+			add("fs", "unlink", d+"/link")
+			add("fs", "symlink", "$R/"+d+"/first", d+"/link")
+			add("add", hx("$R/"+d+"/link"), "31", "0")
+			add("fs", "create", d+"/first/file")
+			add("fs", "create", d+"/other/file2")
+			add("proc", "A")
+			add("list")
+		case 2: // a watched child of a watched directory is renamed away, then changed
+			add("fs", "mkdir", d+"/w")
+			add("fs", "mkdir", d+"/u")
+			child := d + "/w/c"
+			if w.rng.Intn(3) == 0 {
+				add("fs", "mkdir", child)
+			} else {
+				add("fs", "create", child)
+			}
+			add("add", hx(w.spell2(d+"/w")), "31", "0")
+			add("add", hx(w.spell2(child)), "31", "0")
+			w.maybeProc(sc)
+			add("fs", "rename", child, d+"/u/g")
+			w.maybeProc(sc)
+			add("fs", "chmod", d+"/u/g")
+			add("fs", "chmod", d+"/u/g")
+			add("proc", "A")
+			add("list")
+			add("remove", hx("$R/"+child))
+		case 3: // rename, delete, recreate the old name, all before the rename is handled
+			f := d + "/F"
+			add("fs", "create", f)
+			add("add", hx(w.spell2(f)), "31", "0")
+			w.maybeProc(sc)
+			add("fs", "rename", f, d+"/G")
+			add("fs", "unlink", d+"/G")
+			if w.rng.Intn(2) == 0 {
+				add("fs", "create", f)
+			} else {
+				add("fs", "create", d+"/H")
+				add("fs", "rename", d+"/H", f)
+			}
+			add("proc", "A")
+			add("list")
+		case 4: // unlink while a descriptor is open, parent watched or not; close later
+			f := d + "/f"
+			add("fs", "create", f)
+			if w.rng.Intn(2) == 0 {
+				add("add", hx(w.spell2(d)), "31", "0")
+			}
+			sf := w.spell2(f)
+			add("add", hx(sf), "31", "0")
+			slot := fmt.Sprint(w.rng.Intn(4))
+			add("fs", "open", f, slot)
+			add("fs", "unlink", f)
+			add("proc", "A")
+			add("list")
+			if w.rng.Intn(2) == 0 {
+				add("remove", hx(sf))
+				add("list")
+			}
+			add("fs", "close", slot)
+			add("proc", "A")
+			add("list")
+		case 5: // an overflow marker in the middle of a batch
+			add("add", hx(w.spell2(d)), "31", "0")
+			n := 2 + w.rng.Intn(5)
+			for i := 0; i < n; i++ {
+				add("fs", "create", fmt.Sprintf("%s/o%d", d, i))
+			}
+			parts := ""
+			pos := w.rng.Intn(n)
+			for i := 0; i < n; i++ {
+				if i == pos {
+					parts += "I"
+				}
+				parts += "R"
+			}
+			add("proc", parts, injectSpec("-1", 0x4000, 0, "", 0))
+			add("fs", "create", d+"/after")
+			add("proc", "A")
+		case 6: // the halves of two moves interleaved in the queue
+			add("add", hx("$R/"+d), "31", "0")
+			c1, c2 := uint32(80000+w.rng.Intn(1000)), uint32(90000+w.rng.Intn(1000))
+			wd := fmt.Sprintf("L%d", 1000) // resolved against the live table: any live non-sentinel wd
+			p := func(n string) int { return 16 - len(n)%16 }
+			recs := []string{injectSpec(wd, 0x40, c1, "a", p("a")), injectSpec(wd, 0x40, c2, "b", p("b")),
+				injectSpec(wd, 0x80, c1, "a2", p("a2")), injectSpec(wd, 0x80, c2, "b2", p("b2"))}
+			if w.rng.Intn(2) == 0 {
+				recs[2], recs[3] = recs[3], recs[2]
+			}
+			if w.rng.Intn(3) == 0 { // a plain create with a stale cookie value of zero in between
+				recs = append(recs[:2], append([]string{injectSpec(wd, 0x100, 0, "plain", p("plain"))}, recs[2:]...)...)
+			}
+			add(append([]string{"proc", strings.Repeat("I", len(recs))}, recs...)...)
+		case 7: // composed spellings of one directory, entries created below it
+			add("fs", "mkdir", d+"/dir")
+			add("fs", "mkdir", d+"/dir/sub")
+			t := []string{d + "/dir", d + "/dir/sub"}[w.rng.Intn(2)]
+			sp := w.spell2(t)
+			add("add", hx(sp), "31", "0")
+			add("fs", "create", t+"/e1")
+			add("fs", "create", t+"/"+longName(w.rng, 16*(1+w.rng.Intn(3))))
+			add("proc", "A")
+			add("list")
+			add("remove", hx(w.spell2(t)))
+			add("list")
+		case 8: // entry names whose length is a multiple of 16 (16 padding bytes), at varying offsets
+			add("add", hx(w.spell2(d)), "31", "0")
+			for i := 0; i < 3; i++ {
+				n := longName(w.rng, 16*(1+w.rng.Intn(15)))
+				if w.rng.Intn(3) == 0 {
+					n = longName(w.rng, 1+w.rng.Intn(30))
+				}
+				add("fs", "create", d+"/"+n)
+				add("fs", "write", d+"/"+n)
+			}
+			add(w.procStep()...)
+			add("proc", "A")
+		case 9: // a listed path is replaced while its old file stays alive (open descriptor or hard link), re-added in place
+			p := d + "/p"
+			add("fs", "create", p)
+			sp := w.spell2(p)
+			add("add", hx(sp), "31", "0")
+			if w.rng.Intn(2) == 0 {
+				add("fs", "open", p, "2")
+			} else {
+				add("fs", "link", p, d+"/keep")
+			}
+			w.maybeProc(sc)
+			add("fs", "unlink", p)
+			add("fs", "create", p)
+			add("add", hx(sp), "31", "0")
+			add("proc", "A")
+			add("fs", "write", p)
+			add("proc", "A")
+			add("list")
+			add("remove", hx(sp))
+			add("proc", "A")
+			add("list")
+		case 10: // Add of a listed path fails because a parent component changed; the set must stay as it was
+			add("fs", "mkdir", d+"/par")
+			f := d + "/par/f"
+			add("fs", "create", f)
+			add("add", hx("$R/"+f), "31", "0")
+			w.maybeProc(sc)
+			switch w.rng.Intn(3) {
+			case 0:
+				add("fs", "rename", d+"/par", d+"/par2")
+			case 1:
+				add("fs", "rename", d+"/par", d+"/par2")
+				add("fs", "create", d+"/par")
+			default:
+				add("fs", "rename", d+"/par", d+"/par2")
+				add("fs", "symlink", "par", d+"/par")
+			}
+			add("add", hx("$R/"+f), "31", "0")
+			add("list")
+			add("fs", "write", d+"/par2/f")
+			add("proc", "A")
+			add("remove", hx("$R/"+f))
+		default: // move out of a watched directory followed by more activity in the same batch
+			add("fs", "mkdir", d+"/w")
+			add("fs", "mkdir", d+"/out")
+			add("add", hx(w.spell2(d+"/w")), "31", "0")
+			add("fs", "create", d+"/w/file")
+			add("proc", "A")
+			add("fs", "rename", d+"/w/file", d+"/out/file")
+			add("fs", "create", d+"/w/file")
+			add("fs", "write", d+"/w/file")
+			add("proc", "A")
+		}
+	}
+}
+
